@@ -1,6 +1,8 @@
 import DsdVerif.Spec.Symbols
 import DsdVerif.Props.C16Reader
 import DsdVerif.Props.C16Text
+import DsdVerif.Props.C16Full
+import DsdVerif.Props.C16Short
 
 namespace Dsd.Symbols
 
